@@ -139,6 +139,26 @@ pub fn register(m: &mut HashMap<&'static str, OpFn>) {
             subtle::Choice::from(a.boolean(2) as u8),
         ))
     });
+    m.insert("ed.cassign", |a| {
+        use subtle::ConditionallySelectable;
+        let mut p = a.ed(0);
+        p.conditional_assign(&a.ed(1), subtle::Choice::from(a.boolean(2) as u8));
+        ed_out(&p)
+    });
+    m.insert("ed.cswap", |a| {
+        use subtle::ConditionallySelectable;
+        let (mut p, mut q) = (a.ed(0), a.ed(1));
+        EdwardsPoint::conditional_swap(&mut p, &mut q, subtle::Choice::from(a.boolean(2) as u8));
+        let mut o = ed_out(&p);
+        o.extend(ed_out(&q));
+        o
+    });
+    m.insert("ed.cneg", |a| {
+        use subtle::ConditionallyNegatable;
+        let mut p = a.ed(0);
+        p.conditional_negate(subtle::Choice::from(a.boolean(1) as u8));
+        ed_out(&p)
+    });
     m.insert("ed.compress_eq", |a| {
         // ConstantTimeEq on compressed forms
         let x = CompressedEdwardsY(a.b32(0));
